@@ -395,4 +395,78 @@ def run(index, tier="quick", seed=0) -> Result:
                 raise AnalysisError("IDX-2: the comparison inside the vertex-index lookup of Polyhedron.sort_faces is not recognised")
     if not looked:
         res.notes.append("IDX-2: Polyhedron.sort_faces no longer rewrites faces through an np.where lookup (rule not applicable)")
+    _cyclic_modulus(res, index)
+    _merge_grouping(res, index)
     return res
+
+
+def _cyclic_modulus(res, index):
+    """CYC-1: a cyclic distance between two positions of ONE vertex cycle, `(X.index(b) - X.index(a)) % m`, is reduced modulo
+    the length of that cycle.  `m` resolved through once-assigned locals; a length of a different sequence is a contradiction
+    (faces of a polyhedron have different lengths), anything else that is not a length is not judged."""
+    from ..astutil import single_assignments
+    for cname in ("Polyhedron", "ConvexPolyhedron"):
+        cls = index.cls(cname)
+        for fn in cls.methods.values():
+            env = single_assignments(fn.node)
+
+            def res_(e, d=0):
+                while isinstance(e, ast.Name) and e.id in env and d < 4:
+                    e, d = env[e.id], d + 1
+                return e
+            for n in ast.walk(fn.node):
+                if not (isinstance(n, ast.BinOp) and isinstance(n.op, ast.Mod) and isinstance(n.left, ast.BinOp) and isinstance(n.left.op, ast.Sub)):
+                    continue
+                sides = [res_(x) for x in (n.left.left, n.left.right)]
+                if not all(isinstance(x, ast.Call) and isinstance(x.func, ast.Attribute) and x.func.attr == "index" and isinstance(x.func.value, ast.Name)
+                           for x in sides):
+                    continue
+                seqs = {x.func.value.id for x in sides}
+                if len(seqs) != 1:
+                    continue
+                seq = next(iter(seqs))
+                m = res_(n.right)
+                if isinstance(m, ast.Call) and isinstance(m.func, ast.Name) and m.func.id == "len" and len(m.args) == 1 and isinstance(m.args[0], ast.Name):
+                    other = m.args[0].id
+                    # the two names may denote the same cycle (list(face) of the same face): compare what they were built from
+                    same = other == seq or (other in env and seq in env and ast.dump(env[other]) == ast.dump(env[seq]))
+                    key = f"{cname}.{fn.name}:cyclic-distance"
+                    if same:
+                        res.ok("CYC-1", key, sample={"distance": ast.unparse(n)[:80]})
+                    else:
+                        res.bad("CYC-1", key + ":foreign-length", f"{fn.file}:{n.lineno}", f"{cname}.{fn.name}: `{ast.unparse(n)[:80]}` reduces a distance between two "
+                                f"positions of `{seq}` modulo the length of `{other}`: for two faces of different length the wrap-around of the closing edge is "
+                                "misjudged (a hexagon reached from a quadrilateral: 5 % 4 == 1)")
+
+
+def _merge_grouping(res, index):
+    """MRG-1: faces are merged by groups that are closed under the pair relation 'neighbours with the same plane' - connected
+    components (scipy) or a union-find.  A single pass that lets one face inherit the label of the other (`labels[j] = labels[i]`)
+    is not transitive: a triangle with two lower-numbered coplanar neighbours that are not yet in one group splits the facet."""
+    cls = index.cls("Polyhedron")
+    fn = cls.methods.get("merge_faces")
+    if fn is None:
+        raise AnalysisError("anchor vanished: Polyhedron.merge_faces")
+    mod = fn.module
+    cc = [n for n in ast.walk(fn.node) if isinstance(n, ast.Call) and ast.unparse(n.func).split(".")[-1] == "connected_components"]
+    inherit = []
+    for n in ast.walk(fn.node):
+        if isinstance(n, ast.Assign) and len(n.targets) == 1 and isinstance(n.targets[0], ast.Subscript) and isinstance(n.value, ast.Subscript) \
+                and isinstance(n.targets[0].value, ast.Name) and isinstance(n.value.value, ast.Name) and n.targets[0].value.id == n.value.value.id \
+                and ast.dump(n.targets[0].slice) != ast.dump(n.value.slice):
+            inherit.append(n)
+    has_find = any(isinstance(n, ast.While) for n in ast.walk(fn.node)) or any(
+        isinstance(n, ast.FunctionDef) and n is not fn.node for n in ast.walk(fn.node))
+    key = "Polyhedron.merge_faces:grouping"
+    if cc:
+        src = mod.imports.get("connected_components")
+        if src is not None and not str(src[0]).startswith("scipy.sparse.csgraph"):
+            raise AnalysisError("MRG-1: connected_components is not scipy's")
+        res.ok("MRG-1", key, sample={"grouping": "scipy.sparse.csgraph.connected_components of the pair graph"})
+    elif inherit and not has_find:
+        n = inherit[0]
+        res.bad("MRG-1", key + ":one-pass-labels", f"{fn.file}:{n.lineno}", f"Polyhedron.merge_faces groups the faces by `{ast.unparse(n)[:50]}` in one pass over the "
+                "pairs: a label is inherited, never united - a face with two coplanar neighbours that carry different labels joins only one of them and the "
+                "facet is split into several coplanar faces (the relation must be closed transitively: connected components / union-find)")
+    else:
+        raise AnalysisError("MRG-1: the way Polyhedron.merge_faces groups the faces to merge is not recognised")
